@@ -318,7 +318,7 @@ def report(prop, results, ledger, tier, seed, t_start, only_mode=False):
         try:
             # contracts that fell outside the verifier by accident (a changed tree) get a longer native search than
             # the ones that are bounded by design and evaluated on every run
-            n_search = ('300' if tier == 'quick' else '3000') if r.get('bounded_by_design') else ('1500' if tier == 'quick' else '6000')
+            n_search = ('600' if tier == 'quick' else '4000') if r.get('bounded_by_design') else ('1500' if tier == 'quick' else '6000')
             cc = native(['crosscheck', r['module'], n_search, str(seed), name], timeout=3600)
             st = cc.get(name, {})
             bounded.append({'what': name, 'why_not_proved': why[:300], 'evaluations': st.get('pre_ok', 0),
